@@ -66,4 +66,19 @@ Section WithCodec.
       split; [| right; lia]. rewrite !firstn_all. reflexivity.
   Qed.
 
+  (* a failed write that is rolled back leaves files and writer untouched *)
+  Lemma do_fault_id : forall d p b in_meta cut,
+    off_d p = length (docs d) -> off_m p = length (meta d) ->
+    do_fault d p b in_meta cut = (d, p).
+  Proof.
+    intros [dd mm] p b in_meta cut Hd Hm. cbn [docs meta] in *.
+    unfold do_fault, fault_ops, fault_writes. rewrite Hd, Hm. cbn [docs meta].
+    destruct in_meta; destruct (cut =? 0);
+      cbn [app fold_left sapply s_docs s_meta s_sd s_sm];
+      rewrite ?write_at_end, ?firstn_app_len, ?firstn_all; reflexivity.
+  Qed.
+
+  Lemma mblock_length : forall b d, length (mblock b d) = HDR + length (b_mpay b).
+  Proof. intros. unfold mblock. apply block_length. Qed.
+
 End WithCodec.
